@@ -248,6 +248,46 @@ pub fn absent_lean_two_byte_names() {
     kani::cover!(ql == 1 && q[0] == n0[0], "absent name that is a proper prefix of a present one");
 }
 
+/// One bucket, two hashed symbols: the chain (2 links) is longer than the bucket count, and both orders of the chain are covered.
+/// A walk that is bounded by anything smaller than the chain array (e.g. by the number of buckets) misses the deeper symbol.
+#[kani::proof]
+#[kani::unwind(6)]
+pub fn complete_lean_one_bucket() {
+    let n0: [u8; 2] = kani::any();
+    let n1: [u8; 2] = kani::any();
+    kani::assume(n0[0] != 0 && n0[1] != 0 && n1[0] != 0 && n1[1] != 0);
+    kani::assume(!(n0[0] == n1[0] && n0[1] == n1[1]));
+    let strs: [u8; 7] = [0, n0[0], n0[1], 0, n1[0], n1[1], 0];
+    let mut syms = [0u8; 48];
+    put_u32(&mut syms, 16, 1, true);
+    put_u32(&mut syms, 32, 4, true);
+    let rev: bool = kani::any();
+    // nbucket=1, nchain=3 | bucket[0] | chain[0..3]
+    let mut tab = [0u8; 24];
+    put_u32(&mut tab, 0, 1, true);
+    put_u32(&mut tab, 4, 3, true);
+    put_u32(&mut tab, 8, if rev { 2 } else { 1 }, true);
+    put_u32(&mut tab, 12, 0, true);
+    put_u32(&mut tab, 16, if rev { 0 } else { 2 }, true);
+    put_u32(&mut tab, 20, if rev { 1 } else { 0 }, true);
+    let e = AnyEndian::Little;
+    let symtab: SymbolTable<'_, AnyEndian> = ParsingTable::new(e, Class::ELF32, &syms);
+    let strtab = StringTable::new(&strs);
+    let t = SysVHashTable::new(e, Class::ELF32, &tab).unwrap();
+    let second: bool = kani::any();
+    let q = if second { n1 } else { n0 };
+    let expect = if second { 2 } else { 1 };
+    match t.find(&q, &symtab, &strtab) {
+        Ok(Some((idx, _))) => {
+            assert!(idx == expect);
+            kani::cover!(second != rev, "symbol at the end of a chain longer than the bucket count");
+        }
+        _ => {
+            assert!(false);
+        }
+    }
+}
+
 /// Lean soundness harness for the quick tier: fixed-size arbitrary table (28 bytes: every header word arbitrary), three arbitrary
 /// ELF32 symbols, arbitrary 4-byte string table + NUL, query of 1..2 bytes: a returned symbol is the entry at the returned index
 /// and its name equals the query.
